@@ -9,6 +9,7 @@ import NmVerif.Containers.SmallVector
 import NmVerif.Containers.SmallVectorProofs
 import NmVerif.Containers.Either
 import NmVerif.Containers.EitherProofs
+import NmVerif.Containers.LedgerSim
 /-
   C19 — The STL-free containers behave like their standard counterparts over any history.
   Property statements only (+ non-vacuity examples, counterexample theorems for the defects of the unchanged tree).
@@ -160,20 +161,49 @@ theorem array_refines (n : Nat) (zero : α) (h : List (Op α)) :
 /-! ### nmtools::small_vector over utl::either<utl::static_vector, utl::vector> -/
 
 /-- `small_vector<T,c>` holds exactly what `std::vector` holds — in static mode, in heap mode and across the switch at
-    `c` — after every history over {ctor, ctorN, ctorV, copy, assign, push, resize, write, read, destroy}
-    (`push_back(x[i])` is not part of the alphabet for this kind) -/
+    `c` — after every history over the whole alphabet {ctor, ctorN, ctorV, copy, assign, push, pushAt, resize, write,
+    read, destroy} in which `x.push_back(x[i])` is never applied to an object holding exactly `c` elements
+    (`smallOk`, decided on the reference run; see `smallVector_alias_push_counterexample`) -/
+theorem smallVector_refines_alias (c : Nat) (zero : α) (h : List (Op α))
+    (hok : AllOk (stdSpec zero) (smallOk c) World.empty h) :
+    WRel (RSmall c) (run (smallImpl c zero) World.empty h) (run (stdSpec zero) World.empty h) :=
+  run_sim (small_sim c zero) h (wrel_empty _) hok
+
+example : AllOk (stdSpec (0 : Int)) (smallOk 4) World.empty
+    [.ctorV 0 [1, 2, 3], .pushAt 0 1, .push 0 5, .pushAt 0 4, .pushAt 0 0, .copy 1 0, .resize 1 2, .pushAt 1 0] := by
+  decide
+
+/-- the same without any `push_back(x[i])` (the statement of the previous rounds) -/
 theorem smallVector_refines (c : Nat) (zero : α) (h : List (Op α))
     (hok : ∀ op ∈ h, ∀ s i, op ≠ .pushAt s i) :
     WRel (RSmall c) (run (smallImpl c zero) World.empty h) (run (stdSpec zero) World.empty h) :=
-  run_sim (small_sim c zero) h (wrel_empty _) (allOk_of_forall _ _ h (by
+  smallVector_refines_alias c zero h (allOk_of_forall _ _ h (by
     intro op hop st
-    cases op <;> simp only [smallOk]
-    exact hok _ hop _ _ rfl) _)
+    cases op <;> cases st <;> simp only [smallOk]
+    exact absurd rfl (hok _ hop _ _)) _)
 
 def smviewOf (w : World (Small Int)) (k : Nat) : Option (List (Cell Int)) := (w.objs k).map Small.view
 
 example : smviewOf (run (smallImpl 4 (0 : Int)) World.empty [.ctorN 0 5, .resize 0 2, .resize 0 6]) 0
     = some [some 0, some 0, some 0, some 0, some 0, some 0] := by decide
+
+/-- `x.push_back(x[i])` on a small_vector holding exactly DIM elements: the internal `resize(DIM+1)` runs before the
+    argument is read — static mode: a vector is constructed over the bytes of the static buffer; heap mode with
+    exhausted capacity: the block is reallocated and freed — so the element stored is read through a dangling
+    reference (`std::vector` appends a copy of `x[i]`) -/
+theorem smallVector_alias_push_counterexample :
+    let hS : List (Op Int) := [.ctorV 0 [10, 11, 12, 13], .pushAt 0 2]
+    let hD : List (Op Int) := [.ctorN 0 4, .write 0 0 7, .pushAt 0 0]
+    smviewOf (run (smallImpl 4 (0 : Int)) World.empty hS) 0 = some [some 10, some 11, some 12, some 13, none] ∧
+    specOf (run (stdSpec (0 : Int)) World.empty hS) 0 = some [some 10, some 11, some 12, some 13, some 12] ∧
+    (run (smallImpl 4 (0 : Int)) World.empty hS).led.events.contains .uaf = true ∧
+    smviewOf (run (smallImpl 4 (0 : Int)) World.empty hD) 0 = some [some 7, some 0, some 0, some 0, none] ∧
+    specOf (run (stdSpec (0 : Int)) World.empty hD) 0 = some [some 7, some 0, some 0, some 0, some 7] ∧
+    (run (smallImpl 4 (0 : Int)) World.empty hD).led.events.contains .uaf = true := by decide
+
+/-- … while a heap vector with spare capacity is not reallocated and the push is correct -/
+example : smviewOf (run (smallImpl 4 (0 : Int)) World.empty [.ctorN 0 6, .resize 0 4, .write 0 1 9, .pushAt 0 1]) 0
+    = some [some 0, some 9, some 0, some 0, some 9] := by decide
 
 /-- growing past DIM and destroying: two blocks are never freed (the temporary of the static→dynamic switch and the
     heap vector itself — `~either() {}`), and the heap vector was *assigned* into storage where none was constructed -/
